@@ -4,9 +4,9 @@
   `FileOrder` lists exactly those files — provided the directory has at most
   `MaxIncludeDepth` files.  Termination: the work list potential decreases (`loadFuel`).
 -/
-import HL.Lemmas.Reach
+import HL.Lemmas.ReachIdx
 namespace HL.Lemmas.Load
-open HL.Index HL.Workspace HL.Lemmas.AList HL.Lemmas.Reach HL.Spec.Rebuild
+open HL.Index HL.Workspace HL.Lemmas.AList HL.Lemmas.ReachIdx HL.Spec.Rebuild
 
 structure LoadInv (fs : FS) (root : String) (todo : List (String × Nat)) (st : LoadSt) : Prop where
   root_mem : root ∈ st.visited
